@@ -589,11 +589,10 @@ def isoptionaltype(obj: type[_OT]) -> compat.TypeIs[type[tp.Optional[_OT]]]:
     """
     # Look through aliases, NewTypes and qualifiers, like `origin()` does below.
     args = getattr(unwrap(obj), "__args__", ())
-    tname = name(origin(obj))
+    # (By identity: a user class may well be called `Optional`.)
+    org = origin(obj)
     nullarg = next((a for a in args if a in (type(None), None)), ...)
-    isoptional = tname == "Optional" or (
-        nullarg is not ... and tname in ("Union", "UnionType", "Literal")
-    )
+    isoptional = nullarg is not ... and (org in _UNION_ORIGINS or org is tp.Literal)
     return isoptional
 
 
